@@ -350,11 +350,26 @@ def _independent_bounds(plan, cfg):
                 names = [a.name for a in node.names]
             elif isinstance(node, ast.ImportFrom) and node.level == 0 and node.module:
                 names = [node.module] + [f"{node.module}.{a.name}" for a in node.names]
+            elif isinstance(node, ast.ImportFrom):
+                # relative import: the library derives "parent modules" from the relative name
+                # itself, so its dotted prefixes can show up as (external-looking) names
+                names = [node.module] if node.module else [a.name for a in node.names]
             for n in names:
                 parts = n.split(".")
                 for i in range(1, len(parts) + 1):
                     upper.add(".".join(parts[:i]))
-    return {"root": cfg["root"], "on_disk": on_disk, "max_comps": max_comps, "upper": upper}
+    kw = cfg.get("kw") or {}
+    exact_excluded = set()
+    for pat in kw.get("external_exclusions") or ():
+        if "*" not in pat:
+            exact_excluded.add(pat)  # the pseudo-regex without '*' names exactly that module
+    for pat in kw.get("regex_external_exclusions") or ():
+        m = re.fullmatch(r"\^?([A-Za-z_][\w]*(?:\\?\.[A-Za-z_][\w]*)*)\$", pat)
+        if m:
+            exact_excluded.add(m.group(1).replace("\\.", "."))
+    return {"root": cfg["root"], "on_disk": on_disk, "max_comps": max_comps, "upper": upper,
+            "externals_included": kw.get("exclude_external_libraries", True) is False,
+            "exact_excluded": exact_excluded}
 
 
 def _surely_undefined(kind, name, bounds):
@@ -370,6 +385,14 @@ def _surely_undefined(kind, name, bounds):
         return None
     root = bounds["root"]
     if not (name == root or name.startswith(root + ".")):
+        # a name outside the root package can only be an external module
+        if not bounds["externals_included"]:
+            return "external-name-while-externals-excluded"
+        parts = name.split(".")
+        if any(".".join(parts[:i]) in bounds["exact_excluded"] for i in range(1, len(parts) + 1)):
+            return "external-name-excluded-by-pattern"
+        if name not in bounds["upper"]:
+            return "external-name-never-imported"
         return None
     if name not in bounds["on_disk"]:
         return "not-on-disk"
